@@ -86,6 +86,13 @@ def random_scenario(rng, kind, policy=None, bind="", mapping_p=0.25, mon_p=0.4, 
           "arr": arr}
     if rng.random() < mon_p:
         sc["mon"] = {"incl": rng.choice([0, 1]), "gaps": [step * K * rng.choice([0, 1, 1, 2, 3]) for _ in range(rng.randint(1, 6))]}
+    if rng.random() < 0.3:
+        # a twin scheduler (same kind, same tables) with its own traffic in the same environment
+        tw, t2 = [], 0
+        for _ in range(rng.randint(2, maxn)):
+            t2 += step * K * rng.choice([0, 0, 1, 1, 2, 3])
+            tw.append({"t": t2, "f": rng.randint(1, nf), "sz": rng.choice(sizes), "src": rng.choice([0, 1, 2])})
+        sc["twin"] = tw
     return sc
 
 
